@@ -18,7 +18,7 @@ import (
 	"verif/internal/vk"
 )
 
-var c04opts = specgen.Options{MaxDepth: 3, Validators: true, Sums: true, AllOf: true, Refs: true, Nullable: true, Maps: true, AnyType: true}
+var c04opts = specgen.Options{MaxDepth: 3, Validators: true, Sums: true, Discs: true, AllOf: true, Refs: true, Nullable: true, Maps: true, AnyType: true}
 
 type specCase struct {
 	Meta c04x.Meta `json:"meta"`
